@@ -21,6 +21,9 @@ RULE = ("Type trees of depth <= 4 (<= 3 in quick) from spec.values.type_trees (a
         "quotes, names with \" ' \\ < > , characters, non-ASCII names); plus CompositeType / DynamicCompositeType / "
         "unknown custom classes for the unrecognised path.  The marshal descriptor is printed with/without the "
         "org.apache.cassandra.db.marshal. prefix and with optional whitespace; the CQL string with optional whitespace.  "
+        "The CQL-string part adds, by construction, containers with several frozen<> parameters side by side and types nested "
+        "3-5 levels in which a level without any frozen<> parameter has a frozen<> further down (class counters "
+        "frozen-siblings / frozen-below-unfrozen-level).  "
         "Non-trivial: container depth >= 3, or a UDT/vector inside a collection, or >= 2 frozen wrappers, or a UDT name "
         "that is not a plain lower-case identifier, or a composite/custom class.")
 ASSUMPTIONS = [
@@ -638,6 +641,8 @@ def interpret_cqlstring(case, ctx):
     ctx.label("frozen:%d" % min(n_frozen, 3))
     if _frozen_siblings(tree):
         ctx.label("frozen-siblings")
+    if _frozen_below_unfrozen(tree):
+        ctx.label("frozen-below-unfrozen-level")
     ctx.nontrivial(_nontrivial(tree) or n_frozen >= 1)
 
     with ctx.driver(["C28.cqltype_roundtrip", feat]):
@@ -667,6 +672,53 @@ def s_frozen_siblings():
                      st.tuples(mp, tup).map(lambda p: {"t": "tuple", "of": [{"t": "frozen", "of": p[0]}, {"t": "frozen", "of": p[1]}]}))
 
 
+def s_frozen_below():
+    """types nested 3-5 levels in which some level has NO frozen<> among its parameters while a deeper level has one
+    (tuple<int, list<frozen<my_udt>>>, set<set<frozen<list<text>>>>, frozen<tuple<list<frozen<set<uuid>>>>>)"""
+    scalar = st.sampled_from(["int", "text", "uuid", "timestamp", "boolean", "blob", "double"]).map(lambda n: {"t": n})
+    udt = st.sampled_from(_PLAIN_NAMES + _QUOTE_NAMES[:3]).map(
+        lambda n: {"t": "udt", "ks": "ks", "name": n, "fields": [["a", {"t": "int"}]]})
+    core = st.one_of(scalar.map(lambda x: {"t": "list", "of": x}), scalar.map(lambda x: {"t": "set", "of": x}),
+                     st.tuples(scalar, scalar).map(lambda kv: {"t": "map", "k": kv[0], "v": kv[1]}),
+                     st.lists(scalar, min_size=1, max_size=3).map(lambda l: {"t": "tuple", "of": l}), udt)
+    bottom = core.map(lambda c: {"t": "frozen", "of": c})
+
+    def wrap(inner):
+        """strategy of a container holding `inner` and otherwise only scalars (so this level has no frozen of its own
+        unless `inner` is one)"""
+        return st.integers(0, 5).flatmap(lambda i: [
+            st.just({"t": "list", "of": inner}),
+            st.just({"t": "set", "of": inner}),
+            scalar.map(lambda k: {"t": "map", "k": k, "v": inner}),
+            st.tuples(st.lists(scalar, max_size=2), st.lists(scalar, max_size=2)).map(
+                lambda ab: {"t": "tuple", "of": ab[0] + [inner] + ab[1]}),
+            st.integers(1, 3).map(lambda d: {"t": "vector", "of": inner, "dim": d}),
+            scalar.map(lambda k: {"t": "map", "k": inner, "v": k}),
+        ][i])
+
+    level1 = bottom.flatmap(wrap)                 # X<frozen<..>>         : frozen directly inside
+    level2 = level1.flatmap(wrap)                 # Y<X<frozen<..>>>      : Y has no frozen of its own
+    level3 = level2.flatmap(wrap)
+    deep = st.one_of(level2, level2, level3)
+    # sometimes a second, directly frozen parameter next to the unfrozen branch, and sometimes a frozen<> around it all
+    beside = st.tuples(deep, bottom).map(lambda p: {"t": "tuple", "of": [p[0], p[1]]})
+    return st.one_of(deep, deep, deep.map(lambda t: {"t": "frozen", "of": t}), beside,
+                     deep.map(lambda t: {"t": "list", "of": {"t": "frozen", "of": t}}))
+
+
+def _frozen_below_unfrozen(tree):
+    """some container level has no frozen<> among its own parameters but one further down"""
+    for x in _walk(tree):
+        kids = _children(x)
+        if x["t"] in ("frozen", "reversed") or not kids:
+            continue
+        if any(c["t"] == "frozen" for c in kids):
+            continue
+        if any(y["t"] == "frozen" for c in kids for y in _walk(c)):
+            return True
+    return False
+
+
 def _frozen_siblings(tree):
     return any(sum(1 for c in _children(x) if c["t"] == "frozen") >= 2 for x in _walk(tree))
 
@@ -678,7 +730,13 @@ def s_cqlstring_case():
     t1 = st.builds(_rename, st.one_of(V.type_trees(max_depth=_max_depth()), s_udt_tree()), names, fnames)
     t2 = st.builds(_rename, st.one_of(V.type_trees(max_depth=2), s_udt_tree()), names2, fnames)
     sib = s_frozen_siblings()
-    tree = st.integers(0, 9).flatmap(lambda i: t1 if i < 6 else (t2 if i < 8 else sib)).map(_no_reversed)
+    below = s_frozen_below()
+    # quoted names with the characters that are special to Python source / CQL quoting, always present
+    qnames = st.lists(st.sampled_from(['a"b', "a'b", "a\\b", "x\"y'z\\w", "\\", "'", '"', "it's", "tab\\t", "a\\'b"]),
+                      min_size=1, max_size=3)
+    t3 = st.builds(_rename, s_udt_tree(), qnames, fnames)
+    tree = st.integers(0, 12).flatmap(
+        lambda i: t1 if i < 5 else (t2 if i < 7 else (sib if i < 9 else (below if i < 11 else t3)))).map(_no_reversed)
     return st.fixed_dictionaries({"tree": tree, "ws": st.one_of(st.just(-1), st.just(0), st.integers(1, 2 ** 24 - 1))})
 
 
